@@ -13,10 +13,16 @@ open OdcGeo.Gen
 theorem tie_pt2idx (g : GridSpec) (x y : Rat) (hx : 0 < g.xbin.sz) (hy : 0 < g.ybin.sz) :
     Gen.C14.pt2idx g x y = .ok (g.pt2idx id x y) := by
   simp only [Gen.C14.pt2idx, GridSpec.pt2idx, tie_bin1d_bin _ _ hx, tie_bin1d_bin _ _ hy]
+  first | done | rfl | tie_fin
 
 /-- `GridSpec.idx_bounds` with the literal tolerance `1e-8` of the code -/
 theorem tie_idx_bounds (g : GridSpec) (q : BBox) (hx : 0 < g.xbin.sz) (hy : 0 < g.ybin.sz) :
     Gen.C14.idx_bounds g q = .ok (g.idxBounds id tol8 q) := by
   simp only [Gen.C14.idx_bounds, GridSpec.idxBounds, tie_pt2idx _ _ _ hx hy, tol8, id, if_true]
+  first
+    | done
+    | rfl
+    | (simp only [Except.ok.injEq, Prod.mk.injEq]; omega)
+    | (repeat' split) <;> first | rfl | (simp only [Except.ok.injEq, Prod.mk.injEq]; omega) | tie_fin
 
 end OdcGeo.C14
